@@ -4,7 +4,7 @@
    C11 gives that (doc, position, size) decode from the reported id without loss. *)
 From Coq Require Import List NArith ZArith Bool Permutation.
 From BE Require Import Model.Scan Model.Build Model.Cursor Proofs.ScanProof Proofs.BuildProof Proofs.Glue Gen.IdsGen Proofs.IdsProof Proofs.Refine Proofs.ConcreteScan.
-From BE Require Model.GoVal Model.Parsers Model.Index Model.Roaring Proofs.RoaringProof Proofs.IndexBuildInv Proofs.IndexCorrect.
+From BE Require Model.GoVal Model.Parsers Model.Index Model.Roaring Proofs.RoaringProof Proofs.IndexBuildInv Proofs.IndexCorrect Model.Spec Proofs.SpecBridge Proofs.HoldersBuildInv Proofs.IndexCorrectHolders Proofs.SpecBridgeHolders Proofs.IndexCorrectPolicy Proofs.SpecBridgeHoldersPolicy Proofs.RoaringHolders Proofs.RoaringSpec.
 Import ListNotations.
 Local Open Scope N_scope.
 
@@ -79,6 +79,45 @@ Theorem C04_collector_calls_exact_once : forall kind pol thr parsers ds st os q,
                             exists d k cj, IndexCorrect.has_conj ds d k cj (snd h)).
 Proof. exact IndexCorrect.index_correct. Qed.
 
+(* THE FULL STATEMENT for the posting-list indexes (see Props/C01.v for the reading of the hypotheses): the collector calls
+   -- one hit record per reported conjunction -- are, as (document, position, size) triples, a permutation of the
+   specification's sat_hits, and no conjunction is reported twice; any container mix, every policy, every outcome *)
+Theorem C04_full_statement_posting_lists : forall kind pol thr parsers cfgl st0 ds st os q,
+  HoldersBuildInv.config_fields (Index.new_builder kind pol thr parsers) cfgl = Some st0 ->
+  Index.add_documents false st0 ds = (st, os) ->
+  NoDup (map Index.d_id ds) ->
+  (forall d cj, In d ds -> In cj (Index.d_conjs d) -> NoDup (map fst cj)) ->
+  (forall d, In d ds -> SpecBridgeHoldersPolicy.doc_ok parsers cfgl d) ->
+  IndexCorrectPolicy.sizes_ok ds ->
+  SpecBridgeHoldersPolicy.skip_ok2 pol (SpecBridgeHolders.cfg_fields parsers cfgl) parsers ds ->
+  ((- GoVal.two64 < thr)%Z \/
+   forall d cj, In d ds -> In cj (Index.d_conjs d) ->
+     Spec.conj_sem (SpecBridgeHolders.cfg_fields parsers cfgl) parsers cj <> None ->
+     HoldersBuildInv.conj_rwf thr (HoldersBuildInv.cfg_of cfgl) cj) ->
+  NoDup (map fst q) ->
+  SpecBridgeHolders.asg_good' parsers cfgl q ->
+  SpecBridgeHoldersPolicy.asg_dom_den parsers cfgl ds q ->
+  (kind = Index.IKGroups -> forall f v, In (f, v) q -> HoldersBuildInv.cfg_of cfgl f = Index.CAc -> IndexCorrectHolders.nil_slice_wf v) ->
+  exists hits spec_hits,
+    Index.retrieve_hits (Index.build_index st) q = Index.ROk hits /\
+    Spec.sat_hits (SpecBridgeHolders.cfg_fields parsers cfgl) parsers pol Spec.pl_docok ds q = Some spec_hits /\
+    Permutation (map (fun h : Index.hitrec => SpecBridge.triple (snd h)) hits) spec_hits /\
+    NoDup (map snd hits).
+Proof. exact SpecBridgeHoldersPolicy.index_sat_hits_holders_policy. Qed.
+
+(* ... and for the roaring scanner's raw result (default and pattern containers; see Props/C03.v) *)
+Theorem C04_full_statement_roaring_raw_result : forall b0 b ds os parsers q pol,
+  RoaringHolders.all_new_r (Roaring.rb_conts b0) -> Roaring.rb_conts b0 <> [] -> NoDup (map fst (Roaring.rb_conts b0)) ->
+  Roaring.radd_documents b0 ds = (b, os) -> Forall (eq Index.AddOk) os -> NoDup (map Index.d_id ds) ->
+  (forall d cj, In d ds -> In cj (Index.d_conjs d) -> NoDup (map fst cj)) ->
+  (forall d, In d ds -> RoaringSpec.doc_good_r (RoaringSpec.conts_fields (Roaring.rb_conts b0)) d) ->
+  RoaringSpec.asg_good_r (RoaringSpec.conts_fields (Roaring.rb_conts b0)) q ->
+  (forall d cj, In d ds -> In cj (Index.d_conjs d) -> Spec.conj_sem (RoaringSpec.conts_fields (Roaring.rb_conts b0)) parsers cj <> None) ->
+  exists s spec_hits, Roaring.sc_retrieve (Roaring.rb_conts b) q Roaring.fresh_scanner = GoVal.POk s /\
+    Spec.sat_hits (RoaringSpec.conts_fields (Roaring.rb_conts b0)) parsers pol RoaringSpec.rr_docok ds q = Some spec_hits /\
+    Permutation (map RoaringSpec.rr_pair (Roaring.sc_res s)) (map (fun t : Z * (Z * Z) => (fst t, fst (snd t))) spec_hits).
+Proof. exact RoaringSpec.roaring_sat_hits. Qed.
+
 Print Assumptions C04_reported_conjunctions_exact_once.
 Print Assumptions C04_collector_calls_exact_once.
 Print Assumptions C04_concrete_kgroups_calls.
@@ -86,3 +125,5 @@ Print Assumptions C04_concrete_compact_calls.
 Print Assumptions C04_roaring_raw_result_exact.
 Print Assumptions C04_collector_arguments.
 Print Assumptions C04_generic_scan_once.
+Print Assumptions C04_full_statement_posting_lists.
+Print Assumptions C04_full_statement_roaring_raw_result.
